@@ -1,13 +1,15 @@
 (* C13 driver.
    FMT = hex of the format the bounds are written in (the reader that parses them), CY = current year;
-   FROM/TO = the day number the text names, or -.  The bound the interval object receives is
-   bound_of_text FMT CY day (the reader's traits decide which of year/month/day are kept); the postings
-   are limited to [from, to) with those bounds as report_t::normalize_period does (glue).
-   (period ID Q N FROM TO TODAY FMT CY)                  Q = d|w|m|q|y
-     -> "ID start=S finish=F samples=s:e,s:e,..."        (e = end_of_duration, exclusive) | "ID ERR"
-   (reg ID Q N FROM TO SOW ALIGN EMPTY FMT CY (D NUM DEN) ...)     all postings of the account, date order
+   EXPR = hex of the period expression text, (DATES) = the day numbers its date words name, in the order
+   written (reading a date word is the date reader's business).  The interval object is what the model's
+   lexer and parser (Model/PeriodExpr.v, parse_text) make of the TEXT; Q N FROM TO - the harness's own
+   reading of the expression - are NOT used by the model (the oracle uses them).  The postings are limited
+   to the [from, to) of the parsed interval as report_t::normalize_period does (glue).
+   (period ID Q N FROM TO TODAY FMT CY EXPR (DATES))     Q = d|w|m|q|y
+     -> "ID start=S finish=F samples=s:e,s:e,... toks=TOK_X,..."   (e = end_of_duration, exclusive) | "ID ERR"
+   (reg ID Q N FROM TO SOW ALIGN EMPTY FMT CY EXPR (DATES) (D NUM DEN) ...)     all postings of the account, date order
      -> "ID rows=s:e:num/den:count;..." | "ID ERR"
-   (greg ID Q N FROM TO SOW ALIGN EMPTY FMT CY (group (D NUM DEN) ...) ...)   --group-by: groups in report
+   (greg ID Q N FROM TO SOW ALIGN EMPTY FMT CY EXPR (DATES) (group (D NUM DEN) ...) ...)   --group-by: groups in report
      order, postings in journal order -> "ID groups=ROWS|ROWS|..."  (ROWS as above, or ERR)
    (civil ID Z) -> "ID y-m-d wd"      (add ID Q N Z) -> "ID z'"        calendar spot checks *)
 let rec nat_of_int n = if n <= 0 then O else S (nat_of_int (n - 1))
@@ -19,9 +21,19 @@ let quantum = function
 let optz x = match atom x with "-" -> None | s -> Some (z_of_string s)
 let show_opt = function None -> "-" | Some z -> string_of_z z
 
-let bound fmt cy = function
-  | None -> None
-  | Some z -> Some (bound_of_text (str_of_hex (atom fmt)) (zatom cy) z)
+let ival_of fmt cy expr dates =
+  parse_text (str_of_hex (atom fmt)) (zatom cy) (str_of_hex (atom expr)) (List.map zatom (items dates))
+
+let ptok_name = function
+  | T_AGO -> "AGO" | T_HENCE -> "HENCE" | T_SINCE -> "SINCE" | T_UNTIL -> "UNTIL" | T_IN -> "IN"
+  | T_THIS -> "THIS" | T_NEXT -> "NEXT" | T_LAST -> "LAST" | T_EVERY -> "EVERY" | T_TODAY -> "TODAY"
+  | T_TOMORROW -> "TOMORROW" | T_YESTERDAY -> "YESTERDAY" | T_YEAR -> "YEAR" | T_QUARTER -> "QUARTER"
+  | T_MONTH -> "MONTH" | T_WEEK -> "WEEK" | T_DAY -> "DAY" | T_YEARLY -> "YEARLY" | T_QUARTERLY -> "QUARTERLY"
+  | T_BIMONTHLY -> "BIMONTHLY" | T_MONTHLY -> "MONTHLY" | T_BIWEEKLY -> "BIWEEKLY" | T_WEEKLY -> "WEEKLY"
+  | T_DAILY -> "DAILY" | T_YEARS -> "YEARS" | T_QUARTERS -> "QUARTERS" | T_MONTHS -> "MONTHS"
+  | T_WEEKS -> "WEEKS" | T_DAYS -> "DAYS" | T_OTHER -> "OTHER"
+let tok_name = function
+  | KDate _ -> "TOK_DATE" | KInt _ -> "TOK_INT" | KUnknown -> "UNKNOWN" | KTok t -> "TOK_" ^ ptok_name t
 
 let post_of = function
   | L [d; num; den] -> { p_date = zatom d; p_amt = h_qred (h_qmake (zatom num) (zatom den)) }
@@ -41,29 +53,37 @@ let show_rows = function
 
 let handle line =
   match parse_sexp line with
-  | L [A "period"; A id; A q; n; from; to_; today; fmt; cy] ->
-    let st = init { d_q = quantum q; d_n = zatom n } (bound fmt cy (optz from)) (bound fmt cy (optz to_)) in
+  | L [A "period"; A id; A _; _; _; _; today; fmt; cy; expr; dates] ->
+    (match ival_of fmt cy expr dates with
+     | Err _ -> [id ^ " ERR"]
+     | Ok st ->
+    let toks = match tokens_of_text (str_of_hex (atom expr)) (List.map zatom (items dates)) with
+      | Ok l -> String.concat "," (List.map tok_name l) | Err _ -> "ERR" in
     (match dump fuel Z0 st (zatom today) with
      | Ok ((s, f), l) ->
-       [Printf.sprintf "%s start=%s finish=%s samples=%s" id (show_opt s) (show_opt f)
-          (String.concat "," (List.map (fun (a, b) -> string_of_z a ^ ":" ^ string_of_z b) l))]
-     | Err _ -> [id ^ " ERR"])
-  | L (A "reg" :: A id :: A q :: n :: from :: to_ :: sow :: align :: empty :: fmt :: cy :: posts) ->
-    let f = bound fmt cy (optz from) and t = bound fmt cy (optz to_) in
-    let st = init { d_q = quantum q; d_n = zatom n } f t in
+       [Printf.sprintf "%s start=%s finish=%s samples=%s toks=%s" id (show_opt s) (show_opt f)
+          (String.concat "," (List.map (fun (a, b) -> string_of_z a ^ ":" ^ string_of_z b) l)) toks]
+     | Err _ -> [id ^ " ERR"]))
+  | L (A "reg" :: A id :: A _ :: _ :: _ :: _ :: sow :: align :: empty :: fmt :: cy :: expr :: dates :: posts) ->
+    (match ival_of fmt cy expr dates with
+     | Err _ -> [id ^ " ERR"]
+     | Ok st ->
+    let f = st.i_from and t = st.i_to in
     let ps = List.filter (within f t) (List.map post_of posts) in
     (match flush_posts fuel (zatom sow) (batom align) (batom empty) st ps with
      | Ok rows -> [Printf.sprintf "%s rows=%s" id (show_rows (Ok rows))]
-     | Err _ -> [id ^ " ERR"])
-  | L (A "greg" :: A id :: A q :: n :: from :: to_ :: sow :: align :: empty :: fmt :: cy :: groups) ->
-    let f = bound fmt cy (optz from) and t = bound fmt cy (optz to_) in
-    let st = init { d_q = quantum q; d_n = zatom n } f t in
+     | Err _ -> [id ^ " ERR"]))
+  | L (A "greg" :: A id :: A _ :: _ :: _ :: _ :: sow :: align :: empty :: fmt :: cy :: expr :: dates :: groups) ->
+    (match ival_of fmt cy expr dates with
+     | Err _ -> [id ^ " ERR"]
+     | Ok st ->
+    let f = st.i_from and t = st.i_to in
     let gs = List.map (function
         | L (A "group" :: posts) -> List.filter (within f t) (List.map post_of posts)
         | _ -> failwith "group") groups in
     let gs = List.filter (fun g -> g <> []) gs in       (* a group without postings in the bounds does not exist *)
     [Printf.sprintf "%s groups=%s" id
-       (String.concat "|" (List.map show_rows (group_by_report fuel (zatom sow) (batom align) (batom empty) st gs)))]
+       (String.concat "|" (List.map show_rows (group_by_report fuel (zatom sow) (batom align) (batom empty) st gs)))])
   | L [A "civil"; A id; z] ->
     let ((y, m), d) = civil_from_days (zatom z) in
     [Printf.sprintf "%s %s-%s-%s %s" id (string_of_z y) (string_of_z m) (string_of_z d)
